@@ -25,9 +25,14 @@ Lemma geq_mark_selecting p w : geq w (mark_selecting p w). Proof. apply geq_set_
 Lemma geq_mark_active p w : geq w (mark_active p w).
 Proof. unfold mark_active. destruct (_ || _); [apply geq_set_sched|apply geq_refl]. Qed.
 Lemma geq_notify_result a b r w : geq w (notify_result a b r w).
-Proof. unfold notify_result. eapply geq_trans; [apply geq_upd_proc|apply geq_wake]. Qed.
+Proof.
+  unfold notify_result. destruct (awaits a b w); [eapply geq_trans; [apply geq_upd_proc|apply geq_wake]|apply geq_wake].
+Qed.
 Lemma geq_worker_notify a b r w : geq w (worker_notify a b r w).
-Proof. unfold worker_notify. destruct r; [apply geq_notify_result|apply geq_upd_proc]. Qed.
+Proof.
+  unfold worker_notify. destruct r; [apply geq_notify_result|].
+  destruct (awaits a b w); [apply geq_upd_proc|apply geq_wake].
+Qed.
 
 Lemma geq_fold {A} (f : worker -> A -> worker) l :
   (forall w x, geq w (f w x)) -> forall w, geq w (fold_left f l w).
@@ -41,7 +46,7 @@ Proof.
   unfold update_await.
   assert (H: geq w (fold_left (fun w e => match snd e with Some r => worker_notify a (fst e) r w | None => w end) rs w)).
   { apply geq_fold. intros w0 x. destruct (snd x); [apply geq_worker_notify|apply geq_refl]. }
-  destruct (existsb _ rs); [exact H|]. eapply geq_trans; [exact H|apply geq_mark_active].
+  destruct (existsb _ rs); [exact H|]. eapply geq_trans; [exact H|apply geq_wake].
 Qed.
 
 Lemma geq_query_one a w rs t : geq w (fst (query_one a (w, rs) t)).
